@@ -356,6 +356,9 @@ MP(parts, lex) ==
                   THEN {<< <<PhKey(h.text), v>> >> \o r : r \in MP(Tail(parts), SubSeq(lex, k + 1, Len(lex)))}
                   ELSE {} : k \in 0..Len(lex)}
 Consistent(a) == \A i, j \in DOMAIN a : a[i][1] = a[j][1] => a[i][2] = a[j][2]
+\* a path cannot hold an empty or "." component: pathlib collapses 'a//b', 'a/./b' and a trailing '/',
+\* so such a path could never be the path of a Sid
+Representable(path) == \A s \in DOMAIN path : s = 1 \/ Concat(path[s]) \notin {"", "."}
 ParsesOf(t, path) == IF Len(t.segs) # Len(path) THEN {}
                      ELSE {FlattenSeqs(x) : x \in SetProd([s \in DOMAIN path |-> MP(t.segs[s], path[s])])}
 MapOf(c, k) == LET idx == {i \in DOMAIN PC(c).mapping : PC(c).mapping[i].key = k}
@@ -371,7 +374,7 @@ HasPath(c, ty) == ty # "" /\ PIdx(c, ty) # {}
 \* property-level FromPath: first template (in order) with a consistent parse, literals match literally
 FromPath(c, path) ==
   LET ok == {i \in DOMAIN PT(c) : \E a \in ParsesOf(PT(c)[i], path) : Consistent(a)}
-  IN IF ok = {} THEN [sid |-> EmptySid, amb |-> FALSE]
+  IN IF ok = {} \/ ~Representable(path) THEN [sid |-> EmptySid, amb |-> FALSE]
      ELSE LET i == MinOf(ok)
               as == {a \in ParsesOf(PT(c)[i], path) : Consistent(a)}
               a == CHOOSE a \in as : TRUE
@@ -401,5 +404,6 @@ ToPath(c, sid) ==
           ELSE IF \A s \in DOMAIN t.segs : \A k \in DOMAIN t.segs[s] :
                      t.segs[s][k].kind = "ph" => Accepts(t.segs[s][k].text, AGet(data, PhKey(t.segs[s][k].text)))
                THEN path ELSE <<>>
+SamePath(p, q) == Len(p) = Len(q) /\ \A s \in DOMAIN p : Concat(p[s]) = Concat(q[s])
 PathStr(path) == JoinStr([s \in DOMAIN path |-> Concat(path[s])], "/")
 =============================================================================
